@@ -118,10 +118,10 @@ fn seq_order(kind: u8, fold: bool) {
     assert!(cell_int(&acc) == Some(e2));
 }
 macro_rules! seq_harness {
-    ($name:ident, $kind:expr, $fold:expr) => {
+    ($(#[$m:meta])* $name:ident, $kind:expr, $fold:expr) => {
+        $(#[$m])*
         // round two: did not finish within 600 s / 14 GB (`Interpreter::exec` = iterator map + collect over a heap
-        // slice); re-tried in round three with the sequence model of DESIGN 0.3 (thorough tier)
-        #[cfg(feature = "verif_thorough")]
+        // slice); with the sequence model of DESIGN 0.3 the array and tuple literals finish (thorough tier)
         #[kani::proof]
         #[kani::unwind(4)]
         #[kani::stub(alloc::fmt::format, crate::verif_common::stub_format)]
@@ -129,11 +129,11 @@ macro_rules! seq_harness {
     };
 }
 seq_harness!(order_array, 0, false);
-seq_harness!(order_array_folded, 0, true);
+seq_harness!(#[cfg(feature = "verif_thorough")] order_array_folded, 0, true);
 seq_harness!(order_tuple, 1, false);
-seq_harness!(order_tuple_folded, 1, true);
-seq_harness!(order_struct, 2, false);
-seq_harness!(order_struct_folded, 2, true);
+seq_harness!(#[cfg(feature = "verif_thorough")] order_tuple_folded, 1, true);
+seq_harness!(#[cfg(feature = "verif_experimental")] order_struct, 2, false);
+seq_harness!(#[cfg(feature = "verif_experimental")] order_struct_folded, 2, true);
 
 /// `[value; len]`: value then length, each once (length = acc after two increments, kept small)
 fn repeat_order(fold: bool) {
